@@ -25,7 +25,8 @@ def describe(tier):
                 f"rotating through {BASE_LABELS} x {b['cers']} content evaluation results. Oracle: no exception; every faulty segment-level / "
                 "free-text node is reported IS_OPTIONAL (with or without FILLED/EMPTY suffix, I4) with a non-empty reason as hint; a faulty "
                 "value-pool entry is offered; the result of every OTHER node is identical to the run on the AHB in which each invalid "
-                "expression is replaced by 'Kann' (same exception class if that run raises). E3 family: "
+                "expression is replaced by 'Kann' (same exception class if that run raises). History family: an expression whose validity depends on a package ('Muss [1] O [5P]') at every site of 4 shapes, validated 2-4 times in one process under "
+                "changing package tables (valid / invalid alternating): each run is judged by the table of that run. E3 family: "
                 f"{len(ORD_SHAPES)} shapes x every fault site x 4 invalid expressions (multi-part with the invalid part first / last, single, nested) with SUSPENDING "
                 "evaluators under all completion orders with <= 2 (thorough 4) deviations on the virtual event loop: every schedule's result equals the zero-yield run, "
                 "which equals the run with non-suspending evaluators (judged by the oracle above). Non-trivial = >= 2 simultaneous faults / schedules deviating from oldest-first.",
@@ -62,6 +63,10 @@ def plan(tier, seed):
             for inv in range(len(ORD_INVALID)):
                 items.append({"fam": "orders", "shape": si, "site": site, "inv": inv, "rot": (site + inv) % 3, "cer": inv % 2,
                               "order_bound": 2 if tier == "quick" else 4})
+    for si, shape in enumerate(ORD_SHAPES):
+        for site in range(len(_sites(_model(shape, 0, 1)))):
+            for tables in ([0, 1], [1, 0], [0, 1, 2], [1, 2, 3], [2, 3, 0, 1]):
+                items.append({"fam": "tables", "shape": si, "site": site, "tables": tables, "rot": site % 3, "cer": 0})
     for si, s in enumerate(T.shapes(b["nodes"])):
         for cer in range(b["cers"]):
             for inv in range(b["invalid"]):
@@ -153,6 +158,61 @@ def check_case(shape, subset, inv, cer, base_rot=0, variant=0):
     return out
 
 
+PK_EXPR = "Muss [1] O [5P]"   # valid or invalid depending on what the package table says about 5P
+PK_TABLES = [{"5P": "[2]"}, {"5P": "[501]"}, {"5P": "[2] U [3]"}, {"5P": "[501] U [901]"}]  # valid, invalid, valid, invalid
+
+
+def check_tables(item):
+    """the same AHB validated several times in ONE process under CHANGING package tables: whether the node is faulty is decided by
+    the table of the current run"""
+    out = []
+    shape = ORD_SHAPES[item["shape"]]
+    for step, t in enumerate(item["tables"]):
+        faulty = _model(shape, item["rot"], 1)
+        kann = _model(shape, item["rot"], 1)
+        fs, ks = _sites(faulty), _sites(kann)
+        kind, node, i = fs[item["site"] % len(fs)]
+        _, knode, _ = ks[item["site"] % len(ks)]
+        invalid_now = t % 2 == 1
+        if kind == "node":
+            node["expr"] = PK_EXPR
+            knode["expr"] = "Kann" if invalid_now else PK_EXPR
+        else:
+            node["entries"][i]["expr"] = PK_EXPR
+            knode["entries"][i]["expr"] = "Kann" if invalid_now else PK_EXPR
+
+        def env():
+            e = H.env(item["cer"])
+            e.packages = dict(e.packages, **PK_TABLES[t])
+            return e
+
+        a = H.V.run_validation(faulty, env(), True)
+        b = H.V.run_validation(kann, env(), True)
+        case = {"tables": item, "step": step}
+        if a[0] != b[0] or (a[0] == "exc" and a[1] != b[1]):
+            out.append({"kind": "validation-aborted" if a[0] == "exc" else "other-nodes-differ", "case": case,
+                        "expected": b[1] if b[0] == "exc" else "a result list", "observed": a[1] if a[0] == "exc" else "a result list",
+                        "msg": f"run {step + 1} of {item['tables']} with 5P = {PK_TABLES[t]['5P']}"})
+            break
+        if a[0] == "exc":
+            continue
+        for x, y in zip(a[1], b[1]):
+            is_faulty_node = kind == "node" and x["id"] == node["id"]
+            if is_faulty_node and invalid_now:
+                if not x["status"].startswith("IS_OPTIONAL") or not x["hints"]:
+                    out.append({"kind": "faulty-node-not-optional", "case": case, "expected": "IS_OPTIONAL* with a reason", "observed": x,
+                                "msg": f"run {step + 1} of {item['tables']}: 5P = {PK_TABLES[t]['5P']} makes {PK_EXPR!r} invalid"})
+                    break
+                continue
+            if x != y and not (kind == "entry" and invalid_now and x["id"] == node["id"]):
+                out.append({"kind": "other-nodes-differ", "case": case, "expected": y, "observed": x,
+                            "msg": f"run {step + 1} of {item['tables']}: 5P = {PK_TABLES[t]['5P']}"})
+                break
+        if out:
+            break
+    return out
+
+
 def _orders_violations(item, base, out, plain):
     import json
 
@@ -167,6 +227,17 @@ def _orders_violations(item, base, out, plain):
 def run_item(item):
     H.init()
     r = Result()
+    if item.get("fam") == "tables":
+        vs = check_tables(item)
+        r.evaluations += len(item["tables"])
+        r.states += len(item["tables"])
+        r.transitions += 2 * len(item["tables"])
+        r.traces += 1
+        r.nontrivial += 1
+        for v in vs:
+            r.violation(v["kind"], v["case"], v["expected"], v["observed"], v["msg"])
+        r.sample({"tables": item})
+        return r
     if item.get("fam") == "orders":
         import json
 
@@ -211,6 +282,8 @@ def _tup(x):
 
 
 def replay(case):
+    if "tables" in case:
+        return check_tables(case["tables"])
     if "orders" in case:
         import json
 
